@@ -74,11 +74,37 @@ impl Ksf for SimKsf {
         &self,
         input: GenericArray<u8, L>,
     ) -> Result<GenericArray<u8, L>, InternalError> {
+        simksf_hash(self.tag, input)
+    }
+}
+
+/// A key-stretching function *without fields* (a unit struct with hard-wired
+/// parameters, as an application would write it): the same function as
+/// `SimKsf { tag: SIMKSF_UNIT_TAG }`, logged and failable the same way.
+#[derive(Clone, Copy, Debug, Default, PartialEq, Eq)]
+pub struct SimKsfUnit;
+
+pub const SIMKSF_UNIT_TAG: u32 = 0x554e_4954;
+
+impl Ksf for SimKsfUnit {
+    fn hash<L: ArrayLength<u8>>(
+        &self,
+        input: GenericArray<u8, L>,
+    ) -> Result<GenericArray<u8, L>, InternalError> {
+        simksf_hash(SIMKSF_UNIT_TAG, input)
+    }
+}
+
+fn simksf_hash<L: ArrayLength<u8>>(
+    tag: u32,
+    input: GenericArray<u8, L>,
+) -> Result<GenericArray<u8, L>, InternalError> {
+    {
         let n = KSF_LOG.with(|l| l.borrow().len()) + 1;
         let fail = KSF_FAIL_AT.with(|f| f.get()) == Some(n);
         KSF_LOG.with(|l| {
             l.borrow_mut().push(KsfCall {
-                tag: self.tag,
+                tag,
                 input: input.to_vec(),
                 failed: fail,
             })
@@ -88,7 +114,7 @@ impl Ksf for SimKsf {
             return Err(InternalError::KsfError);
         }
         Ok(GenericArray::clone_from_slice(&simksf_eval(
-            self.tag,
+            tag,
             &input,
             L::USIZE,
         )))
